@@ -21,11 +21,44 @@ GB_ALPHA = 'abcdefghijklmnopqrstuvwxyzABCDEFGHIJKLMNOPQRSTUVWXYZ0123456789 .,-_/
 # ---------------------------------------------------------------------------------------
 # expectations from the script
 
+class AnyDeal:
+    """The deal of a board that was left to the table manager: any four disjoint 13-card hands covering the pack."""
+
+    def __eq__(self, other):
+        try:
+            hs = [other[s] for s in A.SEATS]
+            return all(len(h) == 13 for h in hs) and sorted(c for h in hs for c in h) == sorted(PL.fmt_cards(range(52)))
+        except Exception:  # noqa
+            return False
+
+    def __ne__(self, other):
+        return not self == other
+
+    def __repr__(self):
+        return '<any complete deal>'
+
+
+class Any13:
+    """The hand of a seat on a board dealt by the table manager: any 13 cards (compared with the log afterwards)."""
+
+    def __eq__(self, other):
+        return isinstance(other, (set, frozenset)) and len(other) == 13
+
+    def __ne__(self, other):
+        return not self == other
+
+    def __repr__(self):
+        return '<any 13 cards>'
+
+    def __iter__(self):
+        return iter(())
+
+
 def board_expect(b):
     """Model result of a scripted board."""
     res = A.result(b['dealer'], b['calls'])
     out = {'board_id': b['id'], 'dealer': A.SEATS[b['dealer']], 'vulnerability': b['vul'],
-           'deal': {A.SEATS[s]: PL.fmt_cards(PL.hands_of(b['owner'])[s]) for s in range(4)},
+           'deal': AnyDeal() if b.get('server_deals') else {A.SEATS[s]: PL.fmt_cards(PL.hands_of(b['owner'])[s]) for s in range(4)},
            'bid_history': [A.call_name(c) for c in b['calls']]}
     if res is None:
         out.update(contract='Passed_out', declarer=None, play_history=None, taken_trick=None, scores={'NS': 0, 'EW': 0})
@@ -53,7 +86,7 @@ def seat_events(scenario, seat):
     for bi, b in enumerate(scenario['boards']):
         ev.append(('start', None))
         ev.append(('board', (bi + 1, b['dealer'], b['vul'])))
-        ev.append(('cards', (seat, set(PL.hands_of(b['owner'])[seat]))))
+        ev.append(('cards', (seat, Any13() if b.get('server_deals') else set(PL.hands_of(b['owner'])[seat]))))
         for i, call in enumerate(b['calls']):
             actor = (b['dealer'] + i) % 4
             if actor != seat:
@@ -180,7 +213,7 @@ def intruder_problems(scenario, r):
 
 def transcript_problems(scenario, r):
     """C10 oracle: the complete server->client stream of each connection, as events, plus the global-clock rule."""
-    out = intruder_problems(scenario, r) + stream_problems(scenario, r)
+    out = intruder_problems(scenario, r) + stream_problems(scenario, r) + server_dealt_problems(scenario, r)
     out.extend(dummy_timing_problems(scenario, r))
     return out
 
@@ -204,6 +237,25 @@ def stream_problems(scenario, r):
                 out.append(('a seat was sent more or fewer messages than the protocol entitles it to',
                             {'seat': A.SEATS[s], 'received': len(got), 'expected': len(exp), 'extra': extra,
                              'missing': [_ev(e) for e in exp[n:n + 3]]}))
+    return out
+
+
+def server_dealt_problems(scenario, r):
+    """Boards dealt by the table manager: what each seat was sent as its hand must be that seat's hand in the log."""
+    out = []
+    if not any(b.get('server_deals') for b in scenario['boards']):
+        return out
+    try:
+        logs = json.loads(r.output_text)['logs']
+    except Exception:  # noqa
+        return out
+    for s in range(4):
+        hands = [v for k, v in (PR.classify(t) for d, t in r.client_logs[s] if d == '<' and t is not None) if k == 'cards' and v[0] == s]
+        for bi, b in enumerate(scenario['boards']):
+            if b.get('server_deals') and bi < len(hands) and bi < len(logs):
+                if sorted(PL.fmt_cards(hands[bi][1])) != sorted(logs[bi]['deal'][A.SEATS[s]]):
+                    out.append(('on a board dealt by the table manager a seat was sent other cards than the log records for it',
+                                {'board': bi, 'seat': A.SEATS[s], 'sent': PL.fmt_cards(sorted(hands[bi][1])), 'logged': logs[bi]['deal'][A.SEATS[s]]}))
     return out
 
 
